@@ -35,6 +35,9 @@ var handBytes = []string{
 }
 
 func runC14(cx *lib.Ctx) {
+	if cx.Replay == "" {
+		corrPos(cx)
+	}
 	res := cx.Res
 	res.MaxPerKey = 2
 	// many small scans: with the default GC target the collector takes a large share of the CPU time
